@@ -1368,7 +1368,8 @@ class _DivEvidence:
         return cur
 
     def evidence(self, den: ast.AST, site: ast.AST) -> Optional[str]:
-        if isinstance(den, ast.Constant) and isinstance(den.value, (int, float)) and den.value != 0:
+        lit = den.operand if isinstance(den, ast.UnaryOp) and isinstance(den.op, (ast.USub, ast.UAdd)) else den
+        if isinstance(lit, ast.Constant) and isinstance(lit.value, (int, float)) and not isinstance(lit.value, bool) and lit.value != 0:
             return "non-zero literal"
         st = self.stmt_of(site)
         if self.zero_guarded(den, st):
